@@ -25,8 +25,7 @@ EPS = ["readFile", "readFileCb", "readDirs", "readDirsCb", "readDirsHistory", "r
 def gen_world(rng, i, tier):
     w = gen.gen_layered_world(rng, i, small=True, allow_refuse=False)
     if rng.chance(0.12):
-        w["read"] = {"ep": "readFile", "path": "$ROOT/single/one.conf", "delim": "=", "comment": "#", "opts": {}}
-        w["nodes"] = [{"p": "$ROOT/single/one.conf", "t": "f", "entries": gen.file_entries(rng, 1)}]
+        gen.single_file_world(rng, w)
     read = w["read"]
     if read["ep"] == "readFile":
         w["ep"] = rng.pick(["readFile", "readFileCb"])
@@ -42,6 +41,9 @@ def gen_world(rng, i, tier):
     # additionally a permission-mask requirement that every file and directory of the tree satisfies
     w["perms"] = rng.pick([None, None, None, [0o400, 0o500], [0o444, 0o111]])
     w["init"] = rng.pick(["null", "sentinel"])
+    # the restrictions are process-wide: set by the main thread, they bind a read made by another thread
+    w["worker_thread"] = rng.chance(0.2)
+    w["read"].pop("satisfied", None)
     # /dev/null links inside the tree are symbolic links and would offend the no-symlink rule by themselves:
     # keep them only when that rule is not active so that the enumeration stays single-fault
     if "symlink" in w["rules"]:
@@ -136,21 +138,24 @@ def one_plan(world, offences, restricted):
     ep = world["ep"]
     cbv = ep.endswith("Cb")
     read["ep"] = ep[:-2] if cbv else ep
-    ops = gen.prologue_ops(read) if read["ep"] != "readFile" else []
+    pro = gen.prologue_ops(read)
     if restricted:
-        ops += security_ops(world)
+        pro += security_ops(world)
     r1 = gen.layered_read_ops(read, cb={} if cbv else None, init=world["init"])
     for o in r1:
         if "tag" in o:
             o["tag"] += "1"
-    ops += r1
-    ops.append({"op": "security", "what": "reset"})
+    epi = [{"op": "security", "what": "reset"}]
     r2 = gen.layered_read_ops(read, cb={} if cbv else None, init=world["init"])
     for o in r2:
         if "tag" in o:
             o["tag"] += "2"
-    ops += r2
-    return {"cfg": world["cfg"], "tree": gen.tree_plan(nodes_for(world, offences)), "ops": ops}
+    epi += r2
+    tree = gen.tree_plan(nodes_for(world, offences))
+    if world.get("worker_thread"):
+        # setters and reset on the main thread, the restricted read on a second thread
+        return {"cfg": dict(world["cfg"], stack_kb=8192), "tree": tree, "prologue": pro, "ops": r1, "epilogue": epi}
+    return {"cfg": world["cfg"], "tree": tree, "ops": pro + r1 + epi}
 
 
 def build_plans(world):
@@ -225,6 +230,8 @@ def check(world, plans, results):
         v.probe("setter_history_" + world["setter_history"])
     if world.get("perms") and world["rules"]:
         v.probe("satisfied_permission_rule_also_in_force")
+    if world.get("worker_thread"):
+        v.probe("setters_on_main_thread_read_on_worker_thread")
     return v
 
 
